@@ -1,4 +1,5 @@
 import GBS.Model.Parse
+import GBS.Lemmas.NoDiverge
 import GBS.Model.Gen
 /-!
 # C15 — ill-formed notation and misuse are rejected; parsing terminates
@@ -297,5 +298,161 @@ theorem C15_unterminated_rejected :
     (match parseSystem (fun _ => false) "CC.|50".toList with | .error .sysUnterminated => true | _ => false) = true ∧
     (match parseSystem (fun _ => false) "CC.|".toList with | .error .sysUnterminated => true | _ => false) = true := by
   constructor <;> decide +kernel
+
+/-! ## no parser ever runs out of fuel -/
+
+/-- a loop step does not fail with "out of fuel" -/
+def NoFail {σ α : Type} (r : StepRes σ α) : Prop := r ≠ .fail .diverge
+
+theorem NoFail.done {σ α : Type} (a : α) : NoFail (.done a : StepRes σ α) := by intro h; cases h
+theorem NoFail.next {σ α : Type} (s : σ) : NoFail (.next s : StepRes σ α) := by intro h; cases h
+theorem NoFail.fail {σ α : Type} (e : PErr) (h : e ≠ .diverge) : NoFail (.fail e : StepRes σ α) := by
+  intro h'; cases h'; exact h rfl
+theorem NoFail.of_eq {σ α β : Type} {r : PR β} {e : PErr} (h : NoDiv r) (he : r = .error e) : NoFail (.fail e : StepRes σ α) := by
+  intro h'; cases h'; exact h he
+
+theorem molPrefix_noDiv (valid : Str → Bool) (rp : Nat) (s : MolSt) (t : Str) : NoDiv (molPrefix valid rp s t) := by
+  unfold molPrefix
+  repeat' (first | exact NoDiv.ok _ | (refine NoDiv.err _ ?_; decide) | split | extract_lets)
+  all_goals first
+    | exact (parseToken_noDiv _ _ _ _).of_eq (by assumption)
+    | exact (parseDesc_noDiv _ _ _ _).of_eq (by assumption)
+
+theorem molStepTail_noFail (valid : Str → Bool) (rp : Nat) (s : MolSt) (text1 : Str) (pre : Option (PToken × Str)) (rid1 : Nat) :
+    NoFail (molStepTail valid rp s text1 pre rid1) := by
+  unfold molStepTail
+  extract_lets endPos
+  split
+  · rename_i e he
+    exact NoFail.of_eq (parseStoch_noDiv _ _ _) he
+  · extract_lets rid2 bt addPre
+    have hadd : NoDiv addPre := by
+      unfold addPre
+      repeat' (first | exact NoDiv.ok _ | (refine NoDiv.err _ ?_; decide) | split | extract_lets)
+      all_goals exact (parseToken_noDiv _ _ _ _).of_eq (by assumption)
+    generalize addPre = r at hadd
+    split
+    · rename_i e
+      exact NoFail.of_eq hadd rfl
+    · exact NoFail.next _
+
+theorem molStep_noFail (valid : Str → Bool) (rp : Nat) (s : MolSt) : NoFail (molStep valid rp s) := by
+  unfold molStep
+  extract_lets iBrace
+  split
+  · exact NoFail.done _
+  · split
+    · rename_i e he
+      exact NoFail.of_eq (molPrefix_noDiv _ _ _ _) he
+    · exact molStepTail_noFail _ _ _ _ _ _
+
+theorem molLoop_noDiv (valid : Str → Bool) (rp fuel : Nat) (s : MolSt) (hf : s.text.length < fuel) : NoDiv (molLoop valid rp fuel s) := by
+  rcases C15_molecule_loop_terminates valid rp fuel s hf with h | ⟨s0, h⟩
+  · exact h
+  · exact absurd h (molStep_noFail valid rp s0)
+
+/-- the mixture part of `Molecule.__init__`, with the positions and texts as parameters -/
+theorem molMix_noDiv (raw : Str) (start : Int) (mixText endText : Str) :
+    NoDiv (if start ≥ 0 then
+        (if endText.length > 0 then (.error .molTrailing : PR (Str × Option PMix)) else
+          match parseMixture mixText with
+          | .error e => .error e
+          | .ok m => .ok (slice raw none (some start), some m))
+      else .ok (raw, none)) := by
+  repeat' (first | exact NoDiv.ok _ | (refine NoDiv.err _ ?_; decide) | split)
+  exact (parseMixture_noDiv _).of_eq (by assumption)
+
+theorem molMix_body (raw : Str) (start : Int) (mixText endText : Str) (body : Str) (mix : Option PMix)
+    (h : (if start ≥ 0 then
+        (if endText.length > 0 then (.error .molTrailing : PR (Str × Option PMix)) else
+          match parseMixture mixText with
+          | .error e => .error e
+          | .ok m => .ok (slice raw none (some start), some m))
+      else .ok (raw, none)) = .ok (body, mix)) : body.length ≤ raw.length := by
+  split at h
+  · split at h
+    · cases h
+    · split at h
+      · cases h
+      · cases h; exact length_slice_le _ _ _
+  · cases h; exact Nat.le_refl _
+
+theorem molTail_noDiv (valid : Str → Bool) (rp : Nat) (s : MolSt) (mix : Option PMix) :
+    NoDiv (if s.text.length > 0 then
+        match parseToken valid s.text 0 (rp + s.rid) with
+        | .error e => .error e
+        | .ok t =>
+          match s.elems.getLast? with
+          | some lastEl =>
+            if t.descs.length == 0 then
+              match lastDescOf lastEl with
+              | none => .error .pyIndex
+              | some other =>
+                match parseToken valid (compatText other ++ s.text) 0 (rp + s.rid) with
+                | .error e => .error e
+                | .ok t2 => .ok { elems := s.elems ++ [PElem.tok t2], mix := mix }
+            else .ok { elems := s.elems ++ [PElem.tok t], mix := mix }
+          | none => .ok { elems := [PElem.tok t], mix := mix }
+      else (.ok { elems := s.elems, mix := mix } : PR PMol)) := by
+  repeat' (first | exact NoDiv.ok _ | (refine NoDiv.err _ ?_; decide) | split)
+  all_goals exact (parseToken_noDiv _ _ _ _).of_eq (by assumption)
+
+theorem parseMol_noDiv (valid : Str → Bool) (text : Str) (rp : Nat) : NoDiv (parseMol valid text rp) := by
+  unfold parseMol
+  extract_lets raw start stop mixText endText mixR
+  have h1 : NoDiv mixR := molMix_noDiv raw start mixText endText
+  have h2 : ∀ body mix, mixR = .ok (body, mix) → body.length ≤ raw.length :=
+    fun body mix h => molMix_body raw start mixText endText body mix h
+  generalize mixR = r at h1 h2
+  generalize raw = r0 at h2
+  split
+  · rename_i e
+    exact h1.of_eq rfl
+  · rename_i body mix
+    have hb := h2 body mix rfl
+    split
+    · rename_i e he
+      exact (molLoop_noDiv valid rp _ _ (by simp only; omega)).of_eq he
+    · exact molTail_noDiv valid rp _ mix
+
+theorem sysStep_noFail (valid : Str → Bool) (st : Str × Nat × List PMol) : NoFail (sysStep valid st) := by
+  unfold sysStep
+  extract_lets text i endPos
+  split
+  · exact NoFail.done _
+  · split
+    · exact NoFail.fail _ (by decide)
+    · split
+      · rename_i e he
+        exact NoFail.of_eq (parseMol_noDiv _ _ _) he
+      · exact NoFail.next _
+
+theorem sysLoop_noDiv (valid : Str → Bool) (fuel : Nat) (text : Str) (rid : Nat) (acc : List PMol) (hf : text.length < fuel) :
+    NoDiv (sysLoop valid fuel text rid acc) := by
+  rcases C15_system_loop_terminates valid fuel text rid acc hf with h | ⟨st, h⟩
+  · exact h
+  · exact absurd h (sysStep_noFail valid st)
+
+/-- **C15 (parsing any string terminates)** — in the model the `while` loops and scanners carry a fuel argument and "out of
+fuel" is the distinct answer `diverge`; with the fuel the parsers pass (a linear function of the length of the text) that
+answer is impossible, for every string and every judgement of bracket atoms: a system, a molecule, a stochastic object and
+a token are always answered with an object or with one of the error classes. -/
+theorem C15_parsing_terminates (valid : Str → Bool) (text : Str) :
+    parseSystem valid text ≠ .error .diverge ∧ (∀ rp, parseMol valid text rp ≠ .error .diverge) ∧
+    (∀ rp, parseStoch valid text rp ≠ .error .diverge) ∧ (∀ off rid, parseToken valid text off rid ≠ .error .diverge) := by
+  refine ⟨?_, fun rp => parseMol_noDiv valid text rp, fun rp => parseStoch_noDiv valid text rp, fun off rid => parseToken_noDiv valid text off rid⟩
+  show NoDiv (parseSystem valid text)
+  unfold parseSystem
+  extract_lets raw
+  split
+  · rename_i e he
+    exact (sysLoop_noDiv valid _ _ _ _ (by omega)).of_eq he
+  · split
+    · split
+      · rename_i e he
+        exact (parseMol_noDiv _ _ _).of_eq he
+      · exact NoDiv.ok _
+    · exact NoDiv.ok _
+
 
 end GBS.P
